@@ -8,6 +8,18 @@ VF_NOTE = ("Trusted: Coq kernel, extraction, harness/vf.c (page table and refere
            "The byte-level page search/bisection is abstracted to its result on the page table (validated by the tie on every run, not proved). "
            "Print Assumptions: closed under the global context.")
 CHECKS = {
+ "C03": {
+  "category": "proof",
+  "text": "Proved for ARBITRARY page tables, granule positions and states: the packet/page loops of the read path terminate within the fuel the model computes "
+          "(measure: pages + packets left), the decoder's buffer writes stay inside its 2*n1 cells from any state, granule trimming stays inside what blockin "
+          "produced for every granule value, the source is closed only by ov_clear and never after a failed open. Memory safety and termination of the C code "
+          "itself on arbitrary bytes - libogg framing, header parsing, byte-level bisection, the API glue - are decided per run: mutated real files (page header "
+          "fields with/without CRC repair, dropped/duplicated/reordered/foreign pages, garbage, lying granules, missing EOS, damaged packets), random bytes and "
+          "truncations x random sequences over the whole public API, seekable and streaming, under ASan/UBSan with a watchdog; return codes must be documented, "
+          "a failed open must zero the handle and not close the source.",
+  "note": VF_NOTE + " The sanitizer-backed exploration is what decides the C-level clauses; the theorems cover the modelled loops and index arithmetic only.",
+  "technique": "Coq proof (termination measures, bounds for all states) + sanitizer-backed mutation exploration of the whole vorbisfile API",
+ },
  "C12": {
   "category": "proof",
   "text": "Proved: the close callback runs only in ov_clear, once per source the library came to own and never after a failed open (Ledger.v, all op sequences); "
